@@ -68,7 +68,7 @@ async fn extend(gp: u64, base: &Built, upto: usize, extra: usize, dt: u64, salt:
             return None;
         }
     }
-    for k in 0..extra {
+    for _k in 0..extra {
         let n = out.blocks.len();
         let b = if n == 0 {
             make_genesis(&node, 1_000_000 + salt, &[(node.pk, 1_000_000), (node.pk, 1_000_000 + salt)])
@@ -81,7 +81,7 @@ async fn extend(gp: u64, base: &Built, upto: usize, extra: usize, dt: u64, salt:
             let tx = make_tx(&spend[0..1], &[(node.pk, spend[0].amount)], &node.sk, ts);
             // a golden ticket in every second block keeps the difficulty flat and the
             // 2-of-6 density satisfied
-            make_block(&node, parent.hash, ts, vec![tx], (n + k) % 2 == 0, salt * 1000 + n as u64)
+            make_block(&node, parent.hash, ts, vec![tx], n % 2 == 1, salt * 1000 + n as u64)
                 .await
                 .ok()?
         };
@@ -276,7 +276,8 @@ fn synth_blockchain(gp: u64, lo: u64, fork: u64, tip: u64, f: u64, g: u64, via_g
 }
 
 struct Part1 {
-    coq_cases: Vec<String>,
+    /// (case number, Gallina case)
+    coq_cases: Vec<(usize, String)>,
 }
 
 const CASE_TYPE: &str = "list (list N) * (list (N * list N) * list (N * N * N * N * N)) * N * (list (N * list N) * list (N * N * N * N * N)) * N * list N * N";
@@ -299,6 +300,13 @@ fn coq_case(mine: &View, peer: &View, est: u64) -> String {
     let mut intern = BTreeMap::new();
     let mut rows: Vec<Vec<u64>> = vec![vec![0; 16]];
     let explicit = mine.synth.is_none() || peer.synth.is_none();
+    let (mine, peer) = if explicit {
+        // one window table per case: never mix table rows with arithmetic identities
+        (View { synth: None, ..mine.clone() }, View { synth: None, ..peer.clone() })
+    } else {
+        (mine.clone(), peer.clone())
+    };
+    let (mine, peer) = (&mine, &peer);
     let pd = view_gallina(peer, &mut intern, &mut rows);
     let md = view_gallina(mine, &mut intern, &mut rows);
     let table = if explicit { gal::nllist(&rows) } else { "[]".to_string() };
@@ -335,6 +343,7 @@ fn record_pair(
     mine: &View,
     peer: &View,
     est: u64,
+    to_coq: bool,
 ) {
     let case_no = summary.case_descs.len();
     let o = judge(mine, peer, est);
@@ -362,7 +371,9 @@ fn record_pair(
     }
     let sampled = windows(&peer.fid).iter().filter(|w| **w != 0).count();
     summary.count("p1_fork_id_entries_set", &format!("{}", sampled));
-    p1.coq_cases.push(coq_case(mine, peer, est));
+    if to_coq {
+        p1.coq_cases.push((case_no, coq_case(mine, peer, est)));
+    }
     // non-trivial: the peer's fork id has at least one entry set and the chains differ
     if sampled > 0 && mine.index != peer.index && distinct.insert(desc.clone()) {
         summary.nontrivial += 1;
@@ -381,6 +392,7 @@ async fn part1(args: &Args, rng: &mut Rng, summary: &mut Summary, distinct: &mut
     // gp 60: nothing pruned up to 60 blocks; gp 12: pruning / purging visible
     let plans: Vec<(u64, usize)> = if thorough { vec![(60, 118), (12, 70), (200, 230)] } else { vec![(60, 78), (12, 47)] };
     for (gp, n) in plans {
+        progress(&format!("part1 real gp {} n {}", gp, n));
         let empty = Built { blocks: vec![], spends: vec![] };
         let main = extend(gp, &empty, 0, n, 300, 0).await.expect("main chain");
         // forks: depths around the checkpoints and elsewhere, suffix lengths short / long
@@ -445,13 +457,17 @@ async fn part1(args: &Args, rng: &mut Rng, summary: &mut Summary, distinct: &mut
                         "{{\"part\":1,\"kind\":\"real\",\"genesis_period\":{},\"mine\":\"{} len {}\",\"peer\":\"{} len {}\",\"estimate\":{}}}",
                         gp, cname, len, chains[cj].0, plen, est
                     );
-                    record_pair(summary, &mut p1, distinct, &format!("real gp{}", gp), desc, mine, peer, est);
+                    // the Coq model is evaluated on a sample of the real-chain pairs (each case carries the
+                    // window table of every block of both chains); the direct oracle runs on all
+                    let to_coq = rng.chance(1, if thorough { 8 } else { 12 });
+                    record_pair(summary, &mut p1, distinct, &format!("real gp{}", gp), desc, mine, peer, est, to_coq);
                 }
             }
         }
         drop(nodes);
     }
 
+    progress("part1 synthetic");
     // ---- (b) synthetic (id, hash) chains in real Blockchain objects ----
     let n_synth = if thorough { 6000 } else { 1500 };
     for k in 0..n_synth {
@@ -486,19 +502,73 @@ async fn part1(args: &Args, rng: &mut Rng, summary: &mut Summary, distinct: &mut
         let peer_bc = synth_blockchain(gp, lo_p, fork, tip_p, 1, 3, via_ghost);
         let mut mine = real_view(&mine_bc);
         let mut peer = real_view(&peer_bc);
-        if tip_m >= lo_m {
-            mine.synth = Some((lo_m, fork, tip_m, 1, 2));
-        }
-        if tip_p >= lo_p {
-            peer.synth = Some((lo_p, fork, tip_p, 1, 3));
-        }
+        // (an empty chain is the arithmetic chain with lo > tip)
+        mine.synth = Some((lo_m, fork, tip_m, 1, 2));
+        peer.synth = Some((lo_p, fork, tip_p, 1, 3));
         let est = mine_bc.generate_last_shared_ancestor(peer.latest, peer.fid);
         let desc = format!(
             "{{\"part\":1,\"kind\":\"synthetic\",\"genesis_period\":{},\"mine\":{{\"ids\":[{},{}],\"family\":[1,2]}},\"peer\":{{\"ids\":[{},{}],\"family\":[1,3]}},\"families_fork_after_id\":{},\"estimate\":{}}}",
             gp, lo_m, tip_m, lo_p, tip_p, fork, est
         );
-        record_pair(summary, &mut p1, distinct, "synthetic", desc, &mine, &peer, est);
+        record_pair(summary, &mut p1, distinct, "synthetic", desc, &mine, &peer, est, true);
     }
+    // deliberate 16-bit window collisions (the hypothesis NoWindowCollision is needed):
+    // mine holds another block at a sampled height whose window equals the peer's
+    for k in 0..(if thorough { 40u64 } else { 12 }) {
+        let gp = 150u64;
+        let tip_p = 20 + 10 * (k % 6) + rng.below(10);
+        let tip_m = tip_p + 1 + rng.below(30);
+        let fork = rng.below(tip_p - tip_p % 10);
+        let base = tip_p - tip_p % 10;
+        // index i of the sample at which the collision is planted
+        let samples: Vec<(usize, u64)> = {
+            let mut v = vec![];
+            let mut cur = base;
+            for (i, w) in WEIGHTS.iter().enumerate() {
+                if cur <= *w {
+                    break;
+                }
+                cur -= w;
+                v.push((i, cur));
+            }
+            v
+        };
+        let above: Vec<&(usize, u64)> = samples.iter().filter(|(_, id)| *id > fork).collect();
+        if above.is_empty() {
+            continue;
+        }
+        let (ci, cid) = **rng.pick(&above);
+        let (pk, sk) = keypair(1);
+        let mk = |tip: u64, fam: u64, collide: bool| -> Blockchain {
+            let wallet = Arc::new(RwLock::new(Wallet::new(sk, pk)));
+            let mut bc = Blockchain::new(wallet, gp, 0, 60);
+            for id in 1..=tip {
+                let mut h = synth_hash(if id <= fork { 1 } else { fam }, id);
+                if collide && id == cid {
+                    let other = synth_hash(3, id);
+                    h[2 * ci] = other[2 * ci];
+                    h[2 * ci + 1] = other[2 * ci + 1];
+                }
+                let mut b = Block::new();
+                b.id = id;
+                b.hash = h;
+                bc.blockring.add_block(&b);
+                bc.blockring.on_chain_reorganization(id, h, true);
+            }
+            bc
+        };
+        let mine_bc = mk(tip_m, 2, true);
+        let peer_bc = mk(tip_p, 3, false);
+        let mine = real_view(&mine_bc);
+        let peer = real_view(&peer_bc);
+        let est = mine_bc.generate_last_shared_ancestor(peer.latest, peer.fid);
+        let desc = format!(
+            "{{\"part\":1,\"kind\":\"planted-collision\",\"mine_tip\":{},\"peer_tip\":{},\"families_fork_after_id\":{},\"collision_at_id\":{},\"window\":{},\"estimate\":{}}}",
+            tip_m, tip_p, fork, cid, ci, est
+        );
+        record_pair(summary, &mut p1, distinct, "planted-collision", desc, &mine, &peer, est, true);
+    }
+    progress("part1 deep");
     // one deep pair reaching every weight of the table (ring of 400_000 slots)
     {
         let gp = 200_000u64;
@@ -535,7 +605,7 @@ async fn part1(args: &Args, rng: &mut Rng, summary: &mut Summary, distinct: &mut
                 "{{\"part\":1,\"kind\":\"synthetic-deep\",\"mine_tip\":{},\"peer_tip\":{},\"families_fork_after_id\":{},\"estimate\":{}}}",
                 tip_m, tip_p, fork, est
             );
-            record_pair(summary, &mut p1, distinct, "synthetic-deep", desc, &mine, &peer, est);
+            record_pair(summary, &mut p1, distinct, "synthetic-deep", desc, &mine, &peer, est, true);
         }
     }
     p1
@@ -803,16 +873,21 @@ struct PendingFetch {
 #[derive(Default)]
 struct RunOut {
     a_tip: (u64, SaitoHash),
+    a_start_tip: (u64, SaitoHash),
     b_tip: (u64, SaitoHash),
     requested: BTreeSet<SaitoHash>,
+    /// A's lowest_acceptable_block_id when the peers connect: header hashes at or below it are ignored by design
+    a_lowest_acceptable: u64,
     steps: usize,
     quiescent: bool,
     panics: Vec<String>,
     /// "A.add_block saw block id X before its parent, which B serves" events
-    child_before_parent: Vec<u64>,
-    b_child_before_parent: Vec<u64>,
+    child_before_parent: Vec<ParentMissing>,
+    b_child_before_parent: Vec<ParentMissing>,
     choice_trace: Vec<(usize, usize)>,
     max_pending: usize,
+    /// blocks in the order in which they reached A's consensus thread
+    arrivals: Vec<SaitoHash>,
     fetch_failures: u32,
     dup_deliveries: u32,
     a_disconnects: usize,
@@ -820,13 +895,34 @@ struct RunOut {
     trace: Vec<String>,
 }
 
-/// which blocks `add_blocks_from_mempool` is about to offer to add_block before their
-/// parent is stored although the parent is a block the other side serves
-async fn children_before_parents(sim: &Sim, incoming: &Block, other_serves: &BTreeSet<SaitoHash>) -> Vec<u64> {
+/// an offer of a block to add_block while its parent is not stored
+#[derive(Clone, Debug)]
+struct ParentMissing {
+    id: u64,
+    /// the parent is a block the other side serves, A may request it (above its lowest
+    /// acceptable id) and it has not been offered to add_block before: the protocol
+    /// delivered the child first
+    reordered: bool,
+    /// add_block does not answer "retry" but goes on with the parentless block: the block
+    /// store is empty (first-block rule), or the parent hash is all-zero, or
+    /// initial_loading_completed is unset
+    orphan_path: bool,
+}
+
+/// what `add_blocks_from_mempool` is about to offer to add_block (the queue sorted by id,
+/// as the code does) with the parent not stored
+async fn parents_missing(
+    sim: &Sim,
+    incoming: &Block,
+    other_serves: &BTreeSet<SaitoHash>,
+    lowest: u64,
+    offered: &mut BTreeSet<SaitoHash>,
+) -> Vec<ParentMissing> {
     let bc = sim.blockchain.read().await;
     if bc.blocks.contains_key(&incoming.hash) {
         return vec![];
     }
+    let lc = sim.cfg_plain.blockchain.initial_loading_completed;
     let mp = sim.mempool.read().await;
     let mut q: Vec<(u64, SaitoHash, SaitoHash)> =
         mp.blocks_queue.iter().map(|b| (b.id, b.hash, b.previous_block_hash)).collect();
@@ -840,9 +936,15 @@ async fn children_before_parents(sim: &Sim, incoming: &Block, other_serves: &BTr
         if known.contains(&h) {
             continue;
         }
-        if prev != [0u8; 32] && !known.contains(&prev) && other_serves.contains(&prev) {
-            out.push(id);
+        if !known.contains(&prev) {
+            let store_empty = known.is_empty();
+            let reordered = prev != [0u8; 32] && other_serves.contains(&prev) && id > lowest + 1 && !offered.contains(&prev);
+            let orphan_path = if store_empty { prev != [0u8; 32] && other_serves.contains(&prev) } else { !lc || prev == [0u8; 32] };
+            if reordered || orphan_path {
+                out.push(ParentMissing { id, reordered, orphan_path });
+            }
         }
+        offered.insert(h);
         known.insert(h);
     }
     out
@@ -937,6 +1039,16 @@ async fn run_scenario(sc: &Scenario, forced: &[usize], budget_trace: bool) -> Ru
     let b_serves: BTreeSet<SaitoHash> = sc.b_chain.iter().map(|x| x.hash).filter(|h| w.b.serve(h).is_some()).collect();
     let a_serves: BTreeSet<SaitoHash> = sc.a_chain.iter().map(|x| x.hash).filter(|h| w.a.serve(h).is_some()).collect();
     out.b_tip = w.b.tip().await;
+    out.a_start_tip = w.a.tip().await;
+    out.a_lowest_acceptable = {
+        let bc = w.a.blockchain.read().await;
+        if bc.blocks.is_empty() { 0 } else { bc.lowest_acceptable_block_id }
+    };
+    let a_low = out.a_lowest_acceptable;
+    let b_low = {
+        let bc = w.b.blockchain.read().await;
+        if bc.blocks.is_empty() { 0 } else { bc.lowest_acceptable_block_id }
+    };
 
     // connection: A dials its static peer, both ends learn of the connection
     w.a.routing.network.initialize_static_peers(w.a.routing.config_lock.clone()).await;
@@ -954,10 +1066,12 @@ async fn run_scenario(sc: &Scenario, forced: &[usize], budget_trace: bool) -> Ru
     w.collect(&mut out);
 
     let n_blocks = sc.a_chain.len() + sc.b_chain.len();
-    let max_steps = 400 + 40 * n_blocks;
+    let max_steps = 2_000 + 40 * n_blocks * (n_blocks + 20);
     let mut idle_ticks = 0;
     let mut choice_no = 0usize;
     let mut fail_counts: BTreeMap<SaitoHash, u32> = BTreeMap::new();
+    let mut offered_a: BTreeSet<SaitoHash> = sc.a_chain.iter().map(|x| x.hash).collect();
+    let mut offered_b: BTreeSet<SaitoHash> = sc.b_chain.iter().map(|x| x.hash).collect();
     let mut age: u64 = 0; // for the FIFO policy: arrival stamps
     let _ = &mut age;
 
@@ -1081,7 +1195,8 @@ async fn run_scenario(sc: &Scenario, forced: &[usize], budget_trace: bool) -> Ru
             Ev::ConsA => {
                 let e = w.a.q_cons.pop_front().unwrap();
                 if let ConsensusEvent::BlockFetched { block, .. } = &e {
-                    let v = children_before_parents(&w.a, block, &b_serves).await;
+                    out.arrivals.push(block.hash);
+                    let v = parents_missing(&w.a, block, &b_serves, a_low, &mut offered_a).await;
                     out.child_before_parent.extend(v);
                 }
                 futures_catch(AssertUnwindSafe(async {
@@ -1092,7 +1207,7 @@ async fn run_scenario(sc: &Scenario, forced: &[usize], budget_trace: bool) -> Ru
             Ev::ConsB => {
                 let e = w.b.q_cons.pop_front().unwrap();
                 if let ConsensusEvent::BlockFetched { block, .. } = &e {
-                    let v = children_before_parents(&w.b, block, &a_serves).await;
+                    let v = parents_missing(&w.b, block, &a_serves, b_low, &mut offered_b).await;
                     out.b_child_before_parent.extend(v);
                 }
                 futures_catch(AssertUnwindSafe(async {
@@ -1253,10 +1368,13 @@ async fn judge_run(sc: &Scenario, out: &RunOut) -> Judged {
             out.b_tip.0, out.a_tip.0
         ));
     }
+    if out.a_tip.0 < out.a_start_tip.0 && out.panics.is_empty() {
+        raw.push(format!("A's tip height went down during the exchange: from id {} to id {}", out.a_start_tip.0, out.a_tip.0));
+    }
     // requested vs needed: B's streamable, served blocks above the common prefix
     let mut missing = vec![];
     for blk in sc.b_chain.iter().skip(sc.common) {
-        if streamable.contains(&blk.hash) && served.contains(&blk.hash) && !out.requested.contains(&blk.hash) {
+        if blk.id > out.a_lowest_acceptable && streamable.contains(&blk.hash) && served.contains(&blk.hash) && !out.requested.contains(&blk.hash) {
             missing.push(blk.id);
         }
     }
@@ -1264,38 +1382,177 @@ async fn judge_run(sc: &Scenario, out: &RunOut) -> Judged {
         raw.push(format!("needed blocks never requested by A: ids {:?}", missing));
     }
     let mut j = Judged { failures: vec![], known: vec![], adoptable: adopt, converged };
-    let excused = !sc.sequential() && !sc.loading_completed && !out.child_before_parent.is_empty();
-    let b_excused = !sc.loading_completed && !out.b_child_before_parent.is_empty();
+    let reordered: Vec<u64> = out.child_before_parent.iter().filter(|e| e.reordered).map(|e| e.id).collect();
+    let reordered_orphan: Vec<u64> = out.child_before_parent.iter().filter(|e| e.reordered && e.orphan_path).map(|e| e.id).collect();
+    let any_orphan = out.child_before_parent.iter().any(|e| e.orphan_path);
+    // (1) the protocol delivered a child before its parent and add_block took the parentless path
+    let excused_reorder = !sc.sequential() && !reordered_orphan.is_empty();
+    // (2) the peer's chain has another genesis block: its blocks reach add_block with unknown / all-zero parents
+    let foreign_genesis = sc.common == 0 && !sc.a_chain.is_empty() && any_orphan;
+    let b_excused = out.b_child_before_parent.iter().any(|e| e.orphan_path);
     for f in raw {
         if f.contains("B-TIP-MOVED") && b_excused {
             j.known.push((
                 "child-before-parent".to_string(),
-                format!("(on B, fetching A's fork blocks ids {:?} before their parents) {}", out.b_child_before_parent, f),
+                format!(
+                    "(on B, which fetches A's fork blocks: ids {:?} reached add_block before their parents) {}",
+                    out.b_child_before_parent.iter().map(|e| e.id).collect::<Vec<_>>(),
+                    f
+                ),
             ));
-        } else if excused {
+        } else if excused_reorder {
             j.known.push((
                 "child-before-parent".to_string(),
-                format!("(A.add_block saw ids {:?} before their parents) {}", out.child_before_parent, f),
+                format!("(A.add_block was offered ids {:?} before their parents) {}", reordered_orphan, f),
             ));
+        } else if foreign_genesis {
+            j.known.push(("foreign-genesis".to_string(), format!("(A and B share no block) {}", f)));
         } else {
             j.failures.push(f);
         }
     }
-    if sc.sequential() && !out.child_before_parent.is_empty() {
+    if sc.sequential() && !reordered.is_empty() {
         j.failures.push(format!(
             "with one fetch in flight and one verification thread the protocol offered blocks {:?} to add_block before their parents",
-            out.child_before_parent
+            reordered
         ));
     }
     j
+}
+
+thread_local! {
+    static REPLAY_LOG_LEVEL: std::cell::Cell<log::LevelFilter> = std::cell::Cell::new(log::LevelFilter::Off);
+}
+fn replay_logging(on: bool) {
+    log::set_max_level(if on { REPLAY_LOG_LEVEL.with(|c| c.get()) } else { log::LevelFilter::Off });
+}
+
+/// as gal::write_shards, but each case keeps its own case number (only a sample of the
+/// part-1 cases goes to the Coq model; numbers index cases.jsonl)
+fn write_numbered_shards(dir: &str, name: &str, header: &str, case_type: &str, cases: &[(usize, String)], shards: usize) -> std::io::Result<Vec<String>> {
+    use std::io::Write;
+    std::fs::create_dir_all(dir)?;
+    let shards = shards.max(1).min(cases.len().max(1));
+    let mut files = vec![];
+    for k in 0..shards {
+        let path = format!("{}/{}_{}.v", dir, name, k);
+        let mut f = std::io::BufWriter::new(std::fs::File::create(&path)?);
+        writeln!(f, "{}", header)?;
+        writeln!(f, "Open Scope N_scope.")?;
+        writeln!(f, "Definition cases : list (N * ({})) := [", case_type)?;
+        let mut first = true;
+        for (pos, (i, c)) in cases.iter().enumerate() {
+            if pos % shards != k {
+                continue;
+            }
+            if !first {
+                writeln!(f, ";")?;
+            }
+            first = false;
+            write!(f, "({}, {})", i, c)?;
+        }
+        writeln!(f, "].")?;
+        writeln!(f, "Definition bad : list N := flat_map (fun ic => if check (snd ic) then [] else [fst ic]) cases.")?;
+        writeln!(f, "Eval vm_compute in bad.")?;
+        files.push(path);
+    }
+    Ok(files)
 }
 
 fn main() {
     let args = Args::parse();
     std::panic::set_hook(Box::new(|_| {}));
     verif_harness::common::init_log();
+    // logging (VERIF_LOG) is switched on only around a replayed protocol run
+    REPLAY_LOG_LEVEL.with(|c| c.set(log::max_level()));
+    log::set_max_level(log::LevelFilter::Off);
     let rt = tokio::runtime::Builder::new_current_thread().enable_all().build().unwrap();
     rt.block_on(async_main(args));
+}
+
+const P2_CASE_TYPE: &str = "(N * bool) * list blk * list N * list N * (N * N)";
+fn p2_header() -> String {
+    "From Saito Require Import Base Chain SyncProto.\n\
+     Definition check (c : (N * bool) * list blk * list N * list N * (N * N)) : bool :=\n\
+       let '(cfg, U, a_ids, arr_ids, (tid, th)) := c in\n\
+       let get := fun k => nth (N.to_nat k) U (mkB 0 0 0 0 false false []) in\n\
+       match deliver cfg (init cfg) (map get a_ids) with\n\
+       | Ok st0 =>\n\
+           match run_fetched cfg (st0, []) (map get arr_ids) with\n\
+           | Ok (st, _) =>\n\
+               match latest_hash st, latest_id st with\n\
+               | Ok h, Ok i => (h =? th) && (i =? tid)\n\
+               | _, _ => false\n\
+               end\n\
+           | _ => false\n\
+           end\n\
+       | _ => false\n\
+       end."
+        .to_string()
+}
+
+/// the protocol run as a case of the Coq sync model: A's chain, the order in which blocks
+/// reached A's consensus thread, A's final tip
+fn p2_case(sc: &Scenario, out: &RunOut) -> Option<String> {
+    // the Coq chain model is tied to the code (harness c05) on histories in which no block
+    // is offered before its parent; runs that enter add_block's parentless path are judged
+    // by the direct oracle only
+    if !out.panics.is_empty()
+        || 2 * sc.gp < (sc.a_chain.len().max(sc.b_chain.len()) as u64)
+        || out.child_before_parent.iter().any(|e| e.orphan_path)
+    {
+        return None;
+    }
+    let mut idx: BTreeMap<SaitoHash, u64> = BTreeMap::new();
+    let mut blocks: Vec<&Block> = vec![];
+    for b in sc.a_chain.iter().chain(sc.b_chain.iter()) {
+        if !idx.contains_key(&b.hash) {
+            idx.insert(b.hash, blocks.len() as u64 + 1);
+            blocks.push(b);
+        }
+    }
+    let h = |x: &SaitoHash| -> u64 {
+        if *x == [0u8; 32] {
+            0
+        } else {
+            *idx.get(x).unwrap_or(&99_999)
+        }
+    };
+    let mut items = vec!["mkB 0 0 0 0 false false []".to_string()];
+    for b in &blocks {
+        items.push(format!(
+            "mkB {} {} {} {} {} true []",
+            h(&b.hash),
+            h(&b.previous_block_hash),
+            b.id,
+            b.burnfee,
+            gal::boolean(b.has_golden_ticket)
+        ));
+    }
+    let a_ids: Vec<u64> = sc.a_chain.iter().map(|b| h(&b.hash)).collect();
+    let arr: Vec<u64> = out.arrivals.iter().map(|x| h(x)).collect();
+    if arr.iter().any(|x| *x == 99_999) {
+        return None;
+    }
+    Some(format!(
+        "(({}, {}), {}, {}, {}, ({}, {}))",
+        sc.gp,
+        gal::boolean(sc.loading_completed),
+        gal::list(&items),
+        gal::nlist(&a_ids),
+        gal::nlist(&arr),
+        out.a_tip.0,
+        h(&out.a_tip.1)
+    ))
+}
+
+fn progress(msg: &str) {
+    if std::env::var("VERIF_PROGRESS").is_ok() {
+        use std::sync::OnceLock;
+        static T0: OnceLock<std::time::Instant> = OnceLock::new();
+        let t0 = T0.get_or_init(std::time::Instant::now);
+        eprintln!("[{:8.2}s] {}", t0.elapsed().as_secs_f64(), msg);
+    }
 }
 
 async fn async_main(args: Args) {
@@ -1307,6 +1564,7 @@ async fn async_main(args: Args) {
     // ------------------------------------------------------------------ part 1
     let p1 = part1(&args, &mut rng, &mut summary, &mut distinct).await;
     let n_part1 = summary.case_descs.len();
+    progress(&format!("part1 done: {} cases", n_part1));
 
     // ------------------------------------------------------------------ part 2
     let mut scenarios: Vec<Scenario> = vec![];
@@ -1354,17 +1612,18 @@ async fn async_main(args: Args) {
                 ("equal", 4, (*d + 4).min(*n), 200),
                 ("one-shorter-heavier", 5, (*d + 6).min(*n), 200),
                 ("longer", 7, (*d + 5).min(*n), 100_000),
-                ("shorter-deep", 2, *n, 300),
+                ("shorter-deep", 2, *n, 400),
             ] {
                 if bl <= *d {
                     continue;
                 }
                 if let Some(f) = extend(*gp, &main, *d, sa, dt, 31 + j as u64 + 100 * gi as u64).await {
+                    let common = f.blocks.iter().zip(mainv[..bl].iter()).take_while(|(x, y)| x.hash == y.hash).count();
                     base.push(mk(
-                        format!("A fork at {} +{} ({}), B {}", d, sa, kind, bl),
+                        format!("A fork at {} +{} ({}), B {}", common, f.blocks.len() - common, kind, bl),
                         Arc::new(f.blocks.clone()),
                         Arc::new(mainv[..bl].to_vec()),
-                        *d,
+                        common,
                         &mut rng,
                     ));
                 }
@@ -1425,6 +1684,7 @@ async fn async_main(args: Args) {
         }
     }
 
+    progress(&format!("part2: {} scenarios built", scenarios.len()));
     // bounded exhaustive exploration of the small cases
     let mut enumerated_runs = 0u64;
     let mut enumerated_complete = 0u64;
@@ -1464,6 +1724,12 @@ async fn async_main(args: Args) {
                 let mut runs = 0;
                 let mut complete = false;
                 let case_no = summary.case_descs.len();
+                if let Some(only) = &args.replay {
+                    if only.parse::<usize>().ok() != Some(case_no) {
+                        summary.case_descs.push("{}".to_string());
+                        continue;
+                    }
+                }
                 let mut worst: Option<(Vec<usize>, Judged, RunOut)> = None;
                 let mut n_conv = 0u64;
                 let mut n_cbp = 0u64;
@@ -1474,7 +1740,7 @@ async fn async_main(args: Args) {
                     if j.converged {
                         n_conv += 1;
                     }
-                    if !out.child_before_parent.is_empty() {
+                    if out.child_before_parent.iter().any(|e| e.reordered) {
                         n_cbp += 1;
                     }
                     let bad = !j.failures.is_empty() || !j.known.is_empty();
@@ -1503,6 +1769,7 @@ async fn async_main(args: Args) {
                         }
                     }
                 }
+                progress(&format!("enumerated {} batch {} verifiers {} lc {}: {} runs complete {}", sc.label, batch, verifiers, lc, runs, complete));
                 enumerated_runs += runs as u64;
                 enumerated_cases += 1;
                 if complete {
@@ -1520,6 +1787,16 @@ async fn async_main(args: Args) {
                         None => String::new(),
                     }
                 );
+                if let (Some(_), Some((f, _, _))) = (&args.replay, &worst) {
+                    eprintln!("replaying schedule {:?} of {}", f, desc);
+                    replay_logging(true);
+                    let out = run_scenario(&sc, f, true).await;
+                    replay_logging(false);
+                    for t in &out.trace {
+                        eprintln!("  {}", t);
+                    }
+                    eprintln!("a_tip {:?} b_tip {:?} child_before_parent {:?} panics {:?}", out.a_tip.0, out.b_tip.0, out.child_before_parent, out.panics);
+                }
                 if let Some((_, j, _)) = &worst {
                     for f in &j.failures {
                         summary.oracle_failure(case_no, f, &desc);
@@ -1541,6 +1818,7 @@ async fn async_main(args: Args) {
     // scripted + random scenarios
     let mut n_adoptable = 0u64;
     let mut n_converged = 0u64;
+    let mut p2_cases: Vec<(usize, String)> = vec![];
     for sc in &scenarios {
         let case_no = summary.case_descs.len();
         if let Some(only) = &args.replay {
@@ -1549,8 +1827,13 @@ async fn async_main(args: Args) {
                 continue;
             }
         }
+        replay_logging(args.replay.is_some());
         let out = run_scenario(sc, &[], args.replay.is_some()).await;
+        replay_logging(false);
         let j = judge_run(sc, &out).await;
+        if case_no % 50 == 0 {
+            progress(&format!("scenario case {}", case_no));
+        }
         let desc = format!(
             "{{\"scenario\":{},\"steps\":{},\"a_tip\":{},\"b_tip\":{},\"adoptable\":{},\"converged\":{},\"headers_to_a\":{},\"blocks_requested\":{},\"fetch_failures\":{},\"duplicate_completions\":{},\"child_before_parent\":{:?},\"max_pending\":{}}}",
             sc.json(),
@@ -1563,7 +1846,7 @@ async fn async_main(args: Args) {
             out.requested.len(),
             out.fetch_failures,
             out.dup_deliveries,
-            out.child_before_parent,
+            out.child_before_parent.iter().filter(|e| e.reordered).map(|e| e.id).collect::<Vec<_>>(),
             out.max_pending
         );
         if args.replay.is_some() {
@@ -1577,6 +1860,9 @@ async fn async_main(args: Args) {
         }
         for (id, what) in &j.known {
             summary.known_hit(id, case_no, what);
+        }
+        if let Some(c) = p2_case(sc, &out) {
+            p2_cases.push((case_no, c));
         }
         if j.adoptable {
             n_adoptable += 1;
@@ -1598,7 +1884,7 @@ async fn async_main(args: Args) {
                 (false, false) => "not adoptable, stays",
             },
         );
-        summary.count("p2_child_before_parent", &format!("{}", !out.child_before_parent.is_empty()));
+        summary.count("p2_child_before_parent", &format!("{}", out.child_before_parent.iter().any(|e| e.reordered)));
         summary.count("p2_fetch_failures", &format!("{}", out.fetch_failures.min(5)));
         summary.count("p2_max_pending", &format!("{}", (out.max_pending / 3) * 3));
         // non-trivial: A had to fetch at least one block and B's chain is adoptable
@@ -1616,7 +1902,20 @@ async fn async_main(args: Args) {
         "part 1: {} (mine, peer) pairs evaluated on the real generate_fork_id / generate_last_shared_ancestor and by the Coq model; part 2: {} enumerated small configurations ({} protocol runs, {} configurations with every schedule of A's events covered), {} scripted/random protocol runs ({} adoptable, {} converged)",
         n_part1, enumerated_cases, enumerated_runs, enumerated_complete, scenarios.len(), n_adoptable, n_converged
     ));
-    let files = gal::write_shards(&format!("{}/cases", args.out), "C15", &coq_header(), CASE_TYPE, &p1.coq_cases, args.shards).unwrap();
+    let files = write_numbered_shards(&format!("{}/cases", args.out), "C15", &coq_header(), CASE_TYPE, &p1.coq_cases, args.shards).unwrap();
+    summary.notes.push(format!("{} of the part-1 pairs (all synthetic ones, a sample of the real-chain ones) are evaluated by the Coq model", p1.coq_cases.len()));
+    let mut files = files;
+    files.extend(write_numbered_shards(&format!("{}/cases", args.out), "C15sync", &p2_header(), P2_CASE_TYPE, &p2_cases, args.shards).unwrap());
+    summary.notes.push(format!(
+        "{} protocol runs (no handler panic, all ids within the regime of the Coq chain model) are replayed by the Coq sync model (SyncProto.run_fetched on A's chain and the recorded arrival order at A's consensus thread) and compared on A's final tip",
+        p2_cases.len()
+    ));
     summary.case_files = files;
     summary.write(&args.out);
+    // bin/check reads "model_cases" for the wording of the correspondence obligation
+    let path = format!("{}/summary.json", args.out);
+    if let Ok(text) = std::fs::read_to_string(&path) {
+        let n = p1.coq_cases.len() + p2_cases.len();
+        let _ = std::fs::write(&path, text.replacen("{\n", &format!("{{\n\"model_cases\": {},\n", n), 1));
+    }
 }
